@@ -134,10 +134,21 @@ def op_case(ctx: Ctx, stream: str, i: int) -> None:
     st, esx = safe(enc.op, op)
     key = sx(esx) if st == 'ok' else f'{name}:{i}'
     x = gen.random_input(rng, op.in_structure())
+    # the ORDER of the modes must not matter: for every other operator the first application of the fresh object happens
+    # under a trace (jit over a closure), the eager one comes second — anything the operator memoises on first use
+    # (a cached property, a lazily filled attribute) is then created inside the trace
+    traced_first = i % 2 == 1
+    if traced_first:
+        st_first, y_first = safe(lambda: jax.jit(lambda v: op.mv(v))(x))
+        ctx.count('order:traced-first')
     st, y0 = safe(op.mv, x)
     if st != 'ok':
-        ctx.fail(stream, i, f'eager-raises:{name}:{st}', str(y0)[:150], {'expr': key[:1500]})
+        ctx.fail(stream, i, f'eager-raises:{name}:{st}' + (':after-a-traced-application' if traced_first else ''), str(y0)[:150],
+                 {'expr': key[:1500], 'traced_first': traced_first})
         return
+    if traced_first and (st_first != 'ok' or not same_values(y0, y_first)):
+        ctx.fail(stream, i, f'jit-closure-first:{name}', f'the first application, under jit over a closure, differs from the eager one '
+                 f'that follows ({st_first})', {'expr': key[:1500]})
     cfg = {'class': name, 'x64': bool(jax.config.jax_enable_x64), 'expr': key[:1500]}
     # declared structure
     # (declared structures are C05's subject and only claimed there for parameters no wider than the data: the
